@@ -1794,6 +1794,9 @@ def check_c14(res, ctx):
                     why = "the failed call left something in its output argument"
                 elif lv and lv.group(1) != "0":
                     why = "leak or double release after a failed allocation: live=%s" % lv.group(1)
+                elif " retry=" in body and (not re.search(r" retry=0:(\S+)", body) or
+                                            re.search(r" retry=0:(\S+)", body).group(1) != (re.search(r" bytes=(\S+)", b) or [None, None])[1]):
+                    why = "after an allocation failure inside a writer the same objects do not serialise to the fault-free bytes any more"
                 elif "valid=0" in body:
                     why = "a failed sbdf_ts_add changed the slice it was adding to (column count or columns)"
                 elif ":add=" in body and " tsw=0:" in body and " tsw=0:" in b and body.split(" tsw=")[1].split()[0] != b.split(" tsw=")[1].split()[0]:
@@ -1809,6 +1812,8 @@ def check_c14(res, ctx):
             ctx.found_input = True
             res.violation("c14: " + why, [fl], True, extra=[h[:2500]])
     res.cov["faults_fired"] = fired
+    res.cov["writer_retries_after_fault"] = sum(" retry=" in h for h in hout)
+    res.cov["failed_adds_checked_for_validity"] = sum(":valid=" in h for h in hout)
     # frame check through the model for metadata histories: the failed operation must leave every
     # register as it was, i.e. the rest of the history behaves as if that operation were absent
     red = []
